@@ -52,6 +52,7 @@ fn main() {
             std::process::exit(props::dispatch(&cfg));
         }
         "selftest" => std::process::exit(selftest::run()),
+        "evm-mini" => std::process::exit(props::c18::mini(args[2].parse().unwrap(), args[3].parse().unwrap())),
         "evmrun" => std::process::exit(props::c17::evmrun(&args[2], args.get(3).map(|s| s.as_str()).unwrap_or(""))),
         "evmdiff" => std::process::exit(props::c17::evmdiff(&args[2], args.get(3).map(|s| s.as_str()).unwrap_or(""))),
         "replay" => {
